@@ -588,7 +588,7 @@ def eval_reorder(ctx, rooted, sa, sb, fns, cfg="exact"):
     sr = rev(sa)
     if sr == sa:
         return
-    ctx.case(("reorder", rooted, sa, sb, cfg, fns), nontrivial=n >= 3, n=2 * len(fns))
+    ctx.case(("reorder", rooted, sa, sb, cfg, fns), nontrivial=n >= 3, n=4 * len(fns))
     for fn in fns:
         res = []
         for x, y in ((sa, sb), (sr, sb), (sb, sa), (sb, sr)):
